@@ -403,6 +403,7 @@ impl<'a> Runner<'a> {
         let exp = &st["exp"];
         match op.as_str() {
             "build" => self.step_build(i, &id, args, exp),
+            "adv" => Ok(true), // the adversary replaced the message on the wire: nothing to call
             "hs_write" => {
                 let payload = self.ev(&args["payload"])?;
                 let buflen = args["buf"].as_u64().ok_or("buf")? as usize;
